@@ -23,7 +23,7 @@
                   RClosed1    clnt.done <- true (as coded: rendezvous with the idle sender;
                               repaired: close(clnt.done)), takes the list
                   RFanout     r.Err = err; r.Done <- r   for the head of the taken list; r = r.next
-     peer / app   PeerReply PeerFrame PeerCut PeerClose PeerHalfClose Unmount
+     peer / app   PeerReply PeerFrame PeerCut PeerClose PeerHalfClose PeerWriteFail PeerGivesUp Unmount
 
    Rendezvous steps are enabled only when the partner is ready (the controller never releases a
    goroutine into a channel operation whose partner is busy, see docs/client.md); a goroutine that
@@ -56,7 +56,7 @@ CONSTANTS K,            \* callers
           CacheCap,     \* capacity of clnt.reqchan (16 in the code)
           TagCallers,   \* callers that use the pipelined Tag interface (one private tag each)
           Kinds,        \* reply kinds the peer chooses from: "ok", "rerror", "wrongtype"
-          Faults,       \* subset of {"close","cut","garbage","unknown","oversize","unmount","halfclose"}
+          Faults,       \* subset of {"close","cut","garbage","unknown","oversize","unmount","halfclose","wfail"}
           MaxFaults,
           FixHandoff, FixLeak, FixOversize, FixTagNil, FixFanNext,
           WaitSender,   \* repaired code: recv waits for the send goroutine to return before the fan-out
@@ -371,6 +371,27 @@ Unmount ==
 
 AllDone == /\ \A k \in Callers : pc[k] = "done"
            /\ \A c \in Calls : res[c].st # "none"
+(* the client's writes start to fail while the peer neither reads nor sends any more (a reset seen only by writers, a
+   local shutdown of the sending direction): a Write the sender is blocked in fails now -- it closes the socket, which
+   fails the pending Read -- and every later Write fails the same way (SGrant).  Reads keep blocking: there is no EOF. *)
+PeerWriteFail ==
+  /\ Alive
+  /\ conn = "open" /\ "wfail" \in Faults /\ nfault < MaxFaults
+  /\ IF spc = "writing"
+       THEN /\ conn' = "clntclosed" /\ fromPeer' = <<>> /\ cerr' = (cerr \/ rpc = "read")
+            /\ SenderHome(RecvWake(rpc))
+       ELSE /\ conn' = "wrfailed" /\ UNCHANGED <<fromPeer, rpc, cerr, spc, scur, fan, list>>
+  /\ nfault' = nfault + 1
+  /\ UNCHANGED <<pc, ncall, res, tag, comp, pool, cache, leaked, rmsg, rcur, doneClosed,
+                 toPeer, nrecv, got>>
+(* ... and as long as nobody writes, the calls outstanding wait for a peer that stays silent; in the end it goes away *)
+PeerGivesUp ==
+  /\ Alive
+  /\ conn = "wrfailed"
+  /\ conn' = "peerclosed"
+  /\ UNCHANGED <<pc, ncall, res, tag, comp, pool, cache, leaked, list, cerr, spc, scur, rpc, rmsg, rcur,
+                 fan, doneClosed, toPeer, nrecv, fromPeer, got, nfault>>
+
 Finished == Alive /\ AllDone /\ UNCHANGED vars      \* stutter so that genuine deadlocks stand out
 
 Next ==
@@ -382,6 +403,7 @@ Next ==
   \/ \E kind \in {"garbage", "unknown", "oversize"} : PeerFrame(kind)
   \/ \E c \in Calls : PeerCut(c)
   \/ PeerClose \/ PeerHalfClose \/ Unmount
+  \/ PeerWriteFail \/ PeerGivesUp
   \/ Finished
 
 Spec == Init /\ [][Next]_vars
@@ -422,7 +444,7 @@ TypeOK ==
   /\ spc \in {"idle", "got", "writing", "exited"}
   /\ rpc \in {"read", "deliver", "closed1", "closing", "fanout", "exited", "panic"}
   /\ (rpc = "closing" => doneClosed /\ spc \in {"got", "writing"})
-  /\ conn \in {"open", "peerclosed", "rdclosed", "clntclosed"}
+  /\ conn \in {"open", "peerclosed", "rdclosed", "wrfailed", "clntclosed"}
   /\ (conn = "clntclosed" => fromPeer = <<>>)
 
 (* ------------------------------------------------------------------ abstraction seen by the controller *)
